@@ -249,3 +249,107 @@ def hstore(ctx):
 
 
 _ALL = ("name", "obj_type", "color", "left_sibling", "right_sibling", "child", "clsid", "state_bits", "creation_time", "modified_time", "start_sector", "stream_len")
+
+
+def slotreset(pid):
+    """R-SLOTRESET: the slot handed out by allocate_dir_entry may be a recycled one whose bytes came from the file
+    (unallocated entries are not validated, they are not reachable from the tree).  Whoever takes a slot overwrites
+    the whole entry with a freshly constructed one before the slot is linked into the tree; filling it field by
+    field leaves whatever links the file stored there."""
+    def run(ctx):
+        res = RuleResult("R-SLOTRESET(%s)" % pid, "after allocate_dir_entry every Ok path stores a freshly constructed entry (DirEntry::new / unallocated) over the whole slot it returned")
+        tbl = ctx.table("reloc")
+        fresh = tbl.get("fresh_constructors", [])
+        accessors = tbl.get("entry_accessors", [])
+        n = 0
+        for f in ctx.fx.fns.values():
+            v = view(ctx, f)
+            allocs = [c for c in v.calls.values() if c.name.endswith("Directory::<F>::allocate_dir_entry") and f.path != c.name]
+            if not allocs or f.path.endswith("::allocate_dir_entry"):
+                continue
+            pr = Prov(f)
+            for a in allocs:
+                n += 1
+                slot = "ok(%s)" % pr.local(a.term["dest"]["local"]) if not a.term["dest"]["proj"] else None
+                stores = set()
+                for bb, c in v.calls.items():
+                    if c.name in accessors and len(c.term["args"]) > 1 and slot and pr.operand(c.term["args"][1]) == slot:
+                        refs = forward_taint(f, {c.term["dest"]["local"]})
+                        for b2, blk in enumerate(f.blocks):
+                            for i, st in enumerate(blk["stmts"]):
+                                if st["s"] == "assign" and st["place"]["local"] in refs and [e["p"] for e in st["place"]["proj"]] == ["deref"]:
+                                    val = pr._def((b2, i, st), 0, ())
+                                    if any(val.startswith(fc) for fc in fresh):
+                                        stores.add(("s", b2, i))
+                starts = v.ok_nodes(a.bb) or list(v.pg.succ[("t", a.bb)])
+                reach = v.pg.reach(starts, stores | set(v.all_err_nodes()))
+                key = "R-SLOTRESET/%s" % f.path
+                if any(r in reach for r in v.pg.returns()):
+                    res.fail(Finding(res.rule, key + "/slot-not-overwritten", "the slot returned by allocate_dir_entry (line %d) can be used up to an Ok return without a whole-entry store of a freshly constructed entry into it: a recycled slot keeps the link fields the file stored there (out-of-range or cyclic links then crash or hang the next tree walk)" % a.line, f, a.term["span"]))
+                else:
+                    res.ok({"function": f.path, "allocated_at": a.line, "whole_entry_stores": len(stores)}, nontrivial=True)
+        res.floor("slot allocations", n, ctx.table("floors").get("slotreset_sites", 0))
+        return res
+    return run
+
+
+def getter(pid):
+    """R-GETTER: the public metadata view reports what is stored: Entry::new copies every field from the DirEntry
+    field of the same name, and each accessor reads exactly its own field (no other field of the entry takes part
+    in the value or in a condition)."""
+    def run(ctx):
+        res = RuleResult("R-GETTER(%s)" % pid, "Entry::new copies field for field; every accessor of Entry depends on exactly the one field it reports")
+        tbl = ctx.table("getters")
+        n = 0
+        f = ctx.fx.fns.get(tbl.get("constructor", ""))
+        if f is None:
+            res.gone.append("Entry::new")
+        else:
+            pr = Prov(f)
+            for bb, blk in enumerate(f.blocks):
+                for i, st in enumerate(blk["stmts"]):
+                    if st["s"] == "assign" and st["rv"]["r"] == "aggregate" and st["rv"].get("agg") == "adt" and st["rv"]["adt"] == tbl["struct"]:
+                        for o, fname in zip(st["rv"]["ops"], st["rv"]["fields"]):
+                            if fname not in tbl["same_name_fields"]:
+                                continue
+                            n += 1
+                            p = pr.operand(o)
+                            want = "%s.%s" % (tbl["source_param"], fname)
+                            if p == want or p == "Clone::clone(%s)" % want:
+                                res.ok({"constructor": f.path, "field": fname, "from": p}, nontrivial=True)
+                            else:
+                                res.fail(Finding(res.rule, "R-GETTER/%s/%s" % (f.path, fname), "Entry::new fills `%s` from %s instead of the directory entry's field of the same name: lookups and listings would report another field's value" % (fname, p[:80]), f, st["span"]))
+        for path, field in tbl.get("getters", {}).items():
+            f = ctx.fx.fns.get(path)
+            if f is None:
+                res.gone.append(path)
+                continue
+            n += 1
+            pr = Prov(f)
+            g = guards(ctx, f)
+            mentioned = set()
+            texts = []
+            for bb, blk in enumerate(f.blocks):
+                if blk["cleanup"]:
+                    continue
+                for i, st in enumerate(blk["stmts"]):
+                    if st["s"] == "assign" and st["place"]["local"] == 0:
+                        texts.append(pr._def((bb, i, st), 0, ()))
+                t = blk["term"]
+                if t["t"] == "call" and not t["dest"]["proj"] and t["dest"]["local"] == 0:
+                    texts += [pr.operand(a) for a in t["args"]]
+                if t["t"] == "switch":
+                    texts.append(pr.operand(t["discr"]))
+            for tx in texts:
+                mentioned.update(re.findall(r"param:self\.(\w+)", tx))
+            key = "R-GETTER/%s" % path
+            extra = sorted(mentioned - {field})
+            if extra:
+                res.fail(Finding(res.rule, key + "/reads-other-field", "%s reports `%s` but its value or a condition in it also depends on %s: what the caller sees is no longer the stored %s" % (path.split("::")[-1], field, ", ".join("`%s`" % x for x in extra), field), f))
+            elif field not in mentioned:
+                res.fail(Finding(res.rule, key + "/does-not-read-own-field", "%s no longer reads `%s`" % (path.split("::")[-1], field), f))
+            else:
+                res.ok({"getter": path, "field": field}, nontrivial=True)
+        res.floor("constructor fields + accessors", n, ctx.table("floors").get("getter_sites", 0))
+        return res
+    return run
